@@ -19,7 +19,7 @@ BOUNDS = {
 OUTSIDE = "float seeds (CrossHair cannot confirm conditions over floats); random_unitary / random_permutation (one-line delegations to scipy/numpy RNGs - nothing to encode); float occupations; aliasing of the list handed to State() by the caller; longer lists"
 STUBS = []
 
-_CONDS = ["_eq_iff", "_concat", "_merge", "_slice_and_copy", "_immutable", "_annotated", "_annotated_ops", "_annotated_immutable", "_herald_roundtrip", "_fock_basis", "_seed_int", "_seed_bool_none"]
+_CONDS = ["_eq_iff", "_concat", "_merge", "_slice_and_copy", "_immutable", "_iadd_rebinds", "_annotated", "_annotated_ops", "_annotated_immutable", "_herald_roundtrip", "_fock_basis", "_seed_int", "_seed_bool_none"]
 
 
 def xh_conditions(tier):
